@@ -5,11 +5,12 @@ CONSTANTS
   Rels <- QRelsP3
   Systems <- AnyTriples
   Boxes = {}
-  Ks <- QKs
+  Ks <- PKs
   Scales <- QScales
 INVARIANT TypeOK
 INVARIANT LastHolds
 INVARIANT Orientation
 INVARIANT PenaltyZeroSet
+INVARIANT KZero
 INVARIANT CrossZero
 INVARIANT EmitC14
